@@ -328,10 +328,12 @@ def main(argv=None):
     wall = time.time() - t0
 
     # 5. evidence
-    level = 'proof' if (not degraded and n_obl > 0 and n_obl == n_dis + sum(1 for _ in []) and not checker_errors) else 'other'
-    n_known_obl = len({rf['name'] for k, rf in known_hits if rf['kind'] != 'bounded'})
-    if level == 'proof' and (n_dis + n_known_obl) != n_obl:
-        level = 'other'
+    # obligations whose refutation is a listed known finding (the sigma-half of a split obligation) are reported separately
+    # and are not part of the proof claim: obligations/discharged count the rest
+    known_names = {rf['name'] for k, rf in known_hits if rf['kind'] != 'bounded'}
+    n_known_obl = len(known_names)
+    n_obl -= n_known_obl
+    level = 'proof' if (not degraded and n_obl > 0 and n_obl == n_dis and not checker_errors and rc == 0) else 'other'
     bcases = sum(b.get('cases', 0) for b in bounded)
     bnontriv = sum(b.get('nontrivial', 0) for b in bounded)
     ev = dict(
